@@ -134,6 +134,14 @@ def call_named(eng, st, name, args, n, callee_n=None):
         return [(st, z3.If(as_int(A[0]) < as_int(A[1]), as_int(A[0]), as_int(A[1])))]
     if name in ('make_pair', 'make_tuple') and not n.t.startswith('pybind11') and 'py::' not in n.t:
         return [(st, Tup(tuple(A)))]
+    if name == 'make_tuple':
+        # py::make_tuple(a0, ..., ak): a new Python tuple holding exactly these objects
+        r = fresh('py_tuple', Ref)
+        st.pc.append(z3.And(r != NULL, M.py_len(r) == len(A), z3.Function('py_is_tuple', Ref, Bool)(r)))
+        for i, a in enumerate(A):
+            a = eng.load(st, a) if isinstance(a, ElemRef) else a
+            st.pc.append(M.py_item(r, z3.IntVal(i)) == (a.ref if isinstance(a, PyObj) else a))
+        return [(st, PyObj(r, fresh=True, stable=True))]
     if name == 'reserved_vector':
         return [(st, new_vector(eng, st, n.t, 'vec'))]
     if name == 'make_unique':
@@ -414,7 +422,12 @@ def py_model(eng, st, name, A, n):
     if name in ('TupleSetItem', 'ListSetItem'):
         o, i = P(0), as_int(A[1])
         eng.oblige(st, 'II', f'{name}:index-in-range', z3.And(0 <= i, i < M.py_len(o.ref)), line)
-        eng.oblige(st, 'IV', f'{name}:target-is-fresh', z3.BoolVal(bool(o.fresh)), line)
+        eng.oblige(st, 'IV', f'F1:{name}:target-is-fresh', z3.BoolVal(bool(o.fresh)), line)
+        items = dict(st.ghost.get('items', {}))
+        key = o.ref.sexpr()
+        ref, arr = items.get(key, (o.ref, z3.K(Int, NULL)))
+        items[key] = (ref, z3.Store(arr, i, P(2).ref))
+        st.ghost['items'] = items
         return [(st, None)]
     if name == 'DictSetItem':
         d = P(0)
@@ -464,17 +477,19 @@ def py_model(eng, st, name, A, n):
         s_exc = st.clone()
         eng.throw(s_exc, 'pybind11::cast_error', line, 'conversion failed')
         if tc == 'bool':
-            return [(st, py_truthy(o.ref, z3.IntVal(st.ghost['epoch'])))]
+            return [(st, M.py_as_bool(o.ref) if o.stable else py_truthy(o.ref, z3.IntVal(st.ghost['epoch'])))]
         if tc == 'int':
-            return [(st, z3.Function('py_as_int', Ref, Int)(o.ref))] if not o.stable else \
-                [(st, z3.Function('py_as_int', Ref, Int)(o.ref))]
+            return [(st, M.py_as_int(o.ref))]
         if tc == 'str':
-            return [(st, z3.Function('py_as_str', Ref, Str)(o.ref))]
+            return [(st, M.py_as_str(o.ref))]
         if tc == 'py':
-            if 'tuple' in t or 'list' in t:
-                # tuple(x) / list(x): the same object when already exact, a fresh one otherwise
-                r = fresh('converted', Ref)
-                return [(st, PyObj(r, fresh=False))]
+            short = t.replace('const ', '').split('::')[-1].strip()
+            pred = {'tuple': M.py_is_tuple, 'list': M.py_is_list, 'type': M.py_is_type}.get(short)
+            if pred is not None:
+                # py::tuple(x) / py::list(x): borrows x when it already is one, otherwise converts (a new object)
+                conv = z3.Function('py_convert_' + short, Ref, Ref)
+                r = z3.If(pred(o.ref), o.ref, conv(o.ref))
+                return [(st, PyObj(r, fresh=False, stable=o.stable))]
             return [(st, o)]
         if tc in ('spec', 'specptr') or 'PyTreeSpec' in t:
             hook = getattr(eng.cur_contract, 'cast_spec', None)
@@ -564,6 +579,8 @@ def method(eng, st, base, name, A, n, callee=None):
             return [(st, o)]
         if name == 'operator bool':
             return [(st, o.ref != NULL)]
+        if name == 'operator object':
+            return [(st, o)]
         if name == 'is_none':
             return [(st, o.ref == PYNONE)]
         if name == 'is':
@@ -805,7 +822,7 @@ def operator_call(eng, n, st):
                 if eng.feasible(s_bad):
                     eng.throw(s_bad, 'pybind11::error_already_set', line, 'IndexError')
                 eng.assume(s, z3.And(0 <= i, i < M.py_len(vec.ref)))
-                outs.append((s, PyObj(M.py_item(vec.ref, i))))
+                outs.append((s, PyObj(M.py_item(vec.ref, i), stable=vec.stable)))
             else:
                 raise Unsupported(f'operator[] on {vec!r}')
         return outs
@@ -966,6 +983,9 @@ def construct(eng, n, st):
                 r = fresh('new_' + short, Ref)
                 s.pc.append(M.py_len(r) == vals[0])
                 s.pc.append(r != NULL)
+                items = dict(s.ghost.get('items', {}))
+                items[r.sexpr()] = (r, z3.K(Int, NULL))          # slots of a new tuple/list are NULL until set
+                s.ghost['items'] = items
                 outs.append((s, PyObj(r, fresh=True)))
             elif short in ('dict', 'list', 'tuple', 'set') and not vals:
                 r = fresh('new_' + short, Ref)
@@ -988,6 +1008,10 @@ def construct(eng, n, st):
                 outs.append((s, PyObj(r, fresh=True)))
             elif short in ('int_',) and len(vals) == 1 and z3.is_expr(vals[0]) and z3.is_int(vals[0]):
                 outs.append((s, PyObj(M.py_int(vals[0]), fresh=True, stable=True)))
+            elif short == 'bool_' and len(vals) == 1 and z3.is_expr(vals[0]) and z3.is_bool(vals[0]):
+                outs.append((s, PyObj(M.py_bool(vals[0]), fresh=True, stable=True)))
+            elif short == 'str' and len(vals) == 1 and z3.is_expr(vals[0]) and vals[0].sort() == Str:
+                outs.append((s, PyObj(M.py_str(vals[0]), fresh=True, stable=True)))
             elif short in ('bool_', 'str') and len(vals) == 1:
                 outs.append((s, PyObj(fresh('new_' + short, Ref), fresh=True, stable=True)))
             elif len(vals) == 1 and isinstance(vals[0], PyObj):
